@@ -25,7 +25,9 @@ TEXTS = [None, "x", " x ", "x  y", "   ", "\t", "\xa0", " \xa0 ", "\n    ", "\n 
          "<![CDATA[write &lt; for less]]>", "AT&amp;amp;T", "&amp;gt; x &amp;#38;",
          "<![CDATA[t\u00e9 < 5 \u00b0C \U0001F600]]>", "\u00e9\U0001F600&#176;",
          # longer than any line width an exporter might wrap at
-         "some words  and more " * 8, " " * 90, "\xa0" * 40 + " " * 60, "x" * 130]
+         "some words  and more " * 8, " " * 90, "\xa0" * 40 + " " * 60, "x" * 130,
+         # a general entity declared in the document's own internal subset (see check(): a DOCTYPE is prepended)
+         "Hello &who;!", "&who;"]
 ATTRS = [["k", "v"], ["k", "a b"], ["k", "&lt;&amp;&quot;"], ["k", ""], ["k", " x "], ["k", "it's &quot;q&quot;"],
          ["xml:lang", "en"], ["xml:space", "preserve"]]
 OPTIONS = [(clean, collapse, lit) for clean in (True, False) for collapse in (True, False)
@@ -334,6 +336,8 @@ def compare_stable(a, b, path, out):
 def check(doc, case, acc=None):
     probs = []
     xml = serialise(doc)
+    if "&who;" in xml:
+        xml = '<!DOCTYPE %s [<!ENTITY who "World  wide">]>' % ((doc["prefix"] + ":" if doc["prefix"] else "") + doc["name"]) + xml
 
     def bad(kind, exp, obs, **sig):
         probs.append(problem(kind, dict(case, xml=xml), expected=exp, observed=obs, **sig))
